@@ -13,7 +13,7 @@
                      blt = lexicographic on bit strings = "(bits padded with zeros, length)"
      covers k q      bits k is a prefix of bits q *)
 From SV Require Import Base.Bytes Lpm.Model Lpm.Bits Lpm.Inv Lpm.Insert Lpm.Delete Lpm.Order
-  Lpm.MapThm Lpm.Lookup Lpm.Iter Lpm.LowerBound Lpm.Refuted.
+  Lpm.MapThm Lpm.Lookup Lpm.Iter Lpm.LowerBound Lpm.Cow Lpm.Refuted.
 From Coq Require Import ZArith.
 Open Scope N_scope.
 
@@ -112,57 +112,107 @@ Theorem C13_iteration_ascending : forall r, inv [] r -> ascending (entries r).
 Proof. exact (fun r => entries_ascending r []). Qed.
 Print Assumptions C13_iteration_ascending.
 
-(* LowerBound.  FULL STATEMENT (not proved in Coq; checked by the correspondence run and the
-   Go oracle `lowerbound` only):
-
-     Theorem C13_lower_bound_exact : forall r q, canon q -> inv [] r ->
-       it_entries (lowerBound r q) = filter (not_below q) (entries r).
-
-   i.e. LowerBound(q) yields, in ascending order, exactly the entries whose prefix is not below q
-   in the order blt (= the suffix of the ascending entry list starting at the first entry >= q).
-   PROVED BELOW: the same conclusion under the extra hypothesis [cmp_at_divergence q]:
-       forall nk, canon nk -> lcp (bits nk) (bits q) < length (bits nk) ->
-                  lcp (bits nk) (bits q) < length (bits q) ->
-         bytes_ltb (key_bytes nk) (fst q) = nth (lcp (bits nk) (bits q)) (bits q) false
-   (the test bytes.Compare(node.key, data) >= 0 that LowerBound makes at a node whose key diverges
-   from the query agrees with the bit at the point of divergence).
-   MISSING: the byte-level bridge "bytewise order of canonical key bytes = lexicographic order of
-   their bit strings" (bytes_ltb a b = bltb (bytes_bits a) (bytes_bits b)), from which
-   [forall q, canon q -> cmp_at_divergence q] follows as for longestMatch. Everything else
-   (descent, right-sibling stack, stack iteration) is proved. *)
-Theorem C13_lower_bound_exact_partial : forall r q, canon q -> cmp_at_divergence q -> inv [] r ->
+(* LowerBound(q) yields, in ascending order, exactly the entries whose prefix is not below q in the
+   order blt (= the suffix of the ascending entry list starting at the first entry >= q) *)
+Theorem C13_lower_bound_exact : forall r q, canon q -> inv [] r ->
   it_entries (lowerBound r q) = filter (not_below q) (entries r).
-Proof. exact lowerBound_exact_partial. Qed.
-Print Assumptions C13_lower_bound_exact_partial.
+Proof. exact lowerBound_exact. Qed.
+Print Assumptions C13_lower_bound_exact.
 
-(* (e) Persistence / copy-on-write by txn id.  FULL STATEMENTS (not proved in Coq):
+(* the byte-level fact behind it: the test bytes.Compare(node.key, data) >= 0 that LowerBound makes at
+   a node whose key diverges from the query agrees with the bit at the point of divergence *)
+Theorem C13_compare_at_divergence : forall q, canon q -> forall nk, canon nk ->
+  (lcp (bits nk) (bits q) < length (bits nk))%nat -> (lcp (bits nk) (bits q) < length (bits q))%nat ->
+  bytes_ltb (key_bytes nk) (fst q) = nth (lcp (bits nk) (bits q)) (bits q) false.
+Proof. exact cmp_at_divergence_holds. Qed.
+Print Assumptions C13_compare_at_divergence.
 
-   Let ids_ok m r := every node of r has txnID <= m and no child has a larger txnID than its parent
-   (what lpm/validate.go asserts). Then
-     (1) forall x k v, ids_ok (t_id x) (t_root x) -> ids_ok (t_id x) (t_root (txn_insert x k v))
-         and likewise for txn_delete (the early exit of Delete relies on the parent/child clause);
-     (2) txn_all / txn_prefix / txn_lowerBound return (x', it) with t_id x' = t_id x + 1 whenever the
-         root is not nil, hence every node reachable from it has txnID < t_id x';
-         trie_txn (txn_commit x) has t_id = t_id x + 1 > every txnID in the committed trie;
-     (3) in a heap semantics where Txn.clone returns its argument iff n.txnID = txn.txnID, a node is
-         written in place only if its txnID equals the id of the writing transaction; with (1)-(2)
-         no node reachable from an earlier committed trie or from an iterator handed out earlier is
-         ever written, so it_entries of every earlier iterator and all/lookup/prefix/lowerBound of
-         every earlier trie are unchanged by any later operation of any transaction
-         (given that a Txn is not used after Commit before Reuse/Clear).
-   The model renders nodes as tree values, so (3) holds in the model by construction and is not a
-   theorem about the code; what the check establishes for (e) is: the txnID of every node and the
-   txn ids after every call agree between model and implementation (op dump), and every earlier
-   trie and iterator is re-read after every later step (oracles persist-trie / persist-iter).
-   What IS proved about ids is only the bookkeeping below. *)
-Theorem C13_txn_ids_partial : forall x t k v q,
+(* ---- (e) persistence: the copy-on-write discipline by txn id (Lpm/Cow.v) ----
+   ids_ok T r        every node of r has txnID <= T and no child has a larger txnID than its parent
+                     (what lpm/validate.go asserts)
+   clone_inplace tid n   the test of Txn.clone: n is returned itself (and then written in place) iff
+                     n.txnID = tid; every node Insert/Delete write is first passed through Txn.clone
+   no_inplace tid r  clone_inplace tid is false on every node of r
+   published x it    every node of the iterator stack it has all its ids strictly below t_id x *)
+
+(* ids_ok is preserved by Insert and Delete (including Delete's early exit), the txn id is unchanged *)
+Theorem C13_cow_ids_preserved : forall x k v,
+  (txn_ids_ok x -> txn_ids_ok (txn_insert x k v) /\ t_id (txn_insert x k v) = t_id x) /\
+  (txn_ids_ok x -> txn_ids_ok (fst (txn_delete x k)) /\ t_id (fst (txn_delete x k)) = t_id x).
+Proof. exact (fun x k v => conj (txn_insert_ids x k v) (txn_delete_ids x k)). Qed.
+Print Assumptions C13_cow_ids_preserved.
+
+(* Delete's early "return value, true" is taken only where the nodes above are owned by the txn
+   (id = txn id), so leaving them untouched equals cloning them; B = bound inherited from the parent *)
+Theorem C13_cow_delete_early_exit_owned : forall tid kd kpl n B ml, ids_ok B n -> B <= tid ->
+  match del tid kd kpl ml n with
+  | Some (n', _, true) => node_id n = tid /\ node_id n' = tid
+  | _ => True
+  end.
+Proof. exact del_stop_owned. Qed.
+Print Assumptions C13_cow_delete_early_exit_owned.
+
+(* every root / iterator handed out is handed out together with an id bump: All, Prefix, LowerBound
+   (txnID++), Commit followed by Txn or Reuse (prevTxnID + 1) *)
+Theorem C13_cow_published : forall x q t,
+  (txn_ids_ok x ->
+    (published (fst (txn_all x)) (snd (txn_all x)) /\ txn_ids_ok (fst (txn_all x))) /\
+    (published (fst (txn_prefix x q)) (snd (txn_prefix x q)) /\ txn_ids_ok (fst (txn_prefix x q))) /\
+    (published (fst (txn_lowerBound x q)) (snd (txn_lowerBound x q)) /\ txn_ids_ok (fst (txn_lowerBound x q)))) /\
+  (txn_ids_ok x -> trie_ids_ok (txn_commit x)) /\
+  (trie_ids_ok t -> txn_ids_ok (trie_txn t) /\ below (t_id (trie_txn t)) (r_root t) /\
+     (forall x', txn_ids_ok (txn_reuse x' t) /\ below (t_id (txn_reuse x' t)) (r_root t))) /\
+  (trie_ids_ok trie_new /\ txn_ids_ok (txn_clear x)).
+Proof.
+  exact (fun x q t => conj (txn_iter_publishes x q) (conj (commit_ids x) (conj (trie_txn_ids t) (new_clear_ids x)))).
+Qed.
+Print Assumptions C13_cow_published.
+
+(* hence Txn.clone never takes the in-place branch on a node of a published iterator ... *)
+Theorem C13_cow_published_never_mutated : forall x it, published x it -> Forall (no_inplace (t_id x)) it.
+Proof. exact published_never_mutated. Qed.
+Print Assumptions C13_cow_published_never_mutated.
+
+(* ... over every later history of that transaction (inserts, deletes, further iterators) ... *)
+Theorem C13_cow_iterator_never_mutated : forall x it z, txn_ids_ok x -> published x it -> steps x z ->
+  txn_ids_ok z /\ Forall (no_inplace (t_id z)) it.
+Proof. exact iterator_never_mutated. Qed.
+Print Assumptions C13_cow_iterator_never_mutated.
+
+(* ... and no transaction begun (Txn or Reuse) from a committed trie ever writes a node of that trie *)
+Theorem C13_cow_committed_never_mutated : forall t x0 z, trie_ids_ok t ->
+  (x0 = trie_txn t \/ exists x, x0 = txn_reuse x t) -> steps x0 z ->
+  txn_ids_ok z /\ no_inplace (t_id z) (r_root t).
+Proof. exact committed_never_mutated. Qed.
+Print Assumptions C13_cow_committed_never_mutated.
+
+(* NOT PROVED (C13_persistence, full statement; C13_persistence_partial below is what is proved): for arbitrary branching histories, no operation of
+   ANY transaction changes what an earlier committed trie or an earlier iterator returns. The theorems
+   above cover the transaction that handed out the iterator and every transaction begun from the
+   committed trie itself. For a transaction y begun from a DIFFERENT trie t' the missing step is a heap
+   argument: a node reachable from t_root y with txnID = t_id y was allocated by y after its last id
+   bump (nodes of t' have ids < t_id y; y stamps only nodes it allocates), hence is not reachable from
+   any other trie or iterator although their nodes may carry the same id number. Nodes are tree values
+   in the model, so node identity / allocation is not expressible; this part is established by the
+   correspondence run only (branching histories, several live transactions from the same and from
+   different tries, every earlier trie and iterator re-read after every step, per-node txnIDs compared).
+   Contract assumed throughout: a Txn is not used after Commit before Reuse/Clear (Commit does not bump). *)
+Theorem C13_persistence_partial : forall x it t x0 z z',
+  (txn_ids_ok x -> published x it -> steps x z -> txn_ids_ok z /\ Forall (no_inplace (t_id z)) it) /\
+  (trie_ids_ok t -> (x0 = trie_txn t \/ exists x1, x0 = txn_reuse x1 t) -> steps x0 z' ->
+     txn_ids_ok z' /\ no_inplace (t_id z') (r_root t)).
+Proof. exact (fun x it t x0 z z' => conj (iterator_never_mutated x it z) (committed_never_mutated t x0 z')). Qed.
+Print Assumptions C13_persistence_partial.
+
+(* which calls bump the transaction id *)
+Theorem C13_txn_id_bookkeeping : forall x t k v q,
   t_id (txn_insert x k v) = t_id x /\ t_id (fst (txn_delete x k)) = t_id x /\
   t_id (trie_txn (txn_commit x)) = t_id x + 1 /\ t_id (txn_reuse x t) = r_prev t + 1 /\
   (t_root x <> Nil -> t_id (fst (txn_all x)) = t_id x + 1 /\ t_id (fst (txn_prefix x q)) = t_id x + 1 /\
                       t_id (fst (txn_lowerBound x q)) = t_id x + 1) /\
   (t_root x = Nil -> fst (txn_all x) = x /\ snd (txn_all x) = []).
 Proof. exact txn_ids. Qed.
-Print Assumptions C13_txn_ids_partial.
+Print Assumptions C13_txn_id_bookkeeping.
 
 (* the unguarded Prefix (code before fix 7b6a21e, seeded/D2) is wrong *)
 Theorem C13_prefix_unguarded_refuted :
